@@ -96,6 +96,7 @@ LazyReqs ==
     stray  |-> Req("{ stray { __typename name } }", NoVars,
                    <<VSchema, VQ("stray"), LVisit("iface", "", "Animal", TDog, "name")>>,
                    [val  |-> Resp([stray |-> ObjV([__typename |-> StrV("Canine"), name |-> StrV("rex")])]),
+                    late |-> Resp([stray |-> ObjV([__typename |-> StrV("Animal"), name |-> StrV("rex")])]),
                     null |-> Resp([stray |-> ObjV([__typename |-> StrV("Animal"), name |-> NullV])])]),
     anycat |-> Req("{ any { ... on Cat { name } } }", NoVars,
                    <<VSchema, VQ("any"), LVisit("union", "", "Thing", TCat, "name")>>,
@@ -106,7 +107,7 @@ LazyReqs ==
                     err |-> RespErr([any2 |-> NullV], << <<"k:any2">> >>)]),
     intro  |-> Req("{ __type(name: \"Cat\") { name kind interfaces { name } } }", NoVars,
                    <<VSchema, LVisit("intro", "", "", "", "")>>,
-                   [val |-> Resp([__type |-> ObjV([name |-> StrV("Cat"), kind |-> V("enum", "OBJECT"),
+                   [val |-> Resp([__type |-> ObjV([name |-> StrV("Cat"), kind |-> StrV("OBJECT"),
                                                    interfaces |-> ListV(<<ObjV([name |-> StrV("Animal")])>>)])])]) ]
 
 \* the order in which request names are enumerated (pairs i <= j)
